@@ -59,3 +59,23 @@ func KeyExchange(client, server *state.Session) error {
 	server.Encryption().InitCleanup()
 	return nil
 }
+
+// EncPair returns two freshly keyed encryption sessions (a's out key is b's in
+// key and vice versa), as used for link-layer encryption.
+func EncPair() (a, b *state.EncryptionSession, err error) {
+	a, b = state.NewEncryptionSession(), state.NewEncryptionSession()
+	kx, kxt, err := a.InitKeyClientStart()
+	if err != nil {
+		return nil, nil, err
+	}
+	rkx, rkxt, err := b.InitKeyServer(kx, kxt)
+	if err != nil {
+		return nil, nil, err
+	}
+	if err := a.InitKeyClientComplete(rkx, rkxt); err != nil {
+		return nil, nil, err
+	}
+	a.InitCleanup()
+	b.InitCleanup()
+	return a, b, nil
+}
